@@ -78,6 +78,7 @@ NONE = V('none', NULL)
 REC = set()          # names of heap fields written since the last reset (used by the loop rule to compute its havoc set)
 REC_LOC = {}         # field name -> list of ref terms stored to (None = whole-field update)
 
+ALLOC_LOG = []        # every reference handed out by Heap.new, in order (the loop rule needs ALL objects a body allocates, also those of paths that end inside a nested loop)
 class Heap:
     def __init__(self, fields, f=None, alloc=None):
         self.fields = fields; self.f = dict(f or {}); self.alloc = alloc if alloc is not None else z3.Array('alloc', Ref, Bo)
@@ -110,7 +111,7 @@ class Heap:
             self.f[nme] = fresh('H_' + nme + '_' + tag, z3.ArraySort(Ref, self.fsort(nme))); REC.add(nme); REC_LOC.setdefault(nme, []).append(None)
     def new(self, path, name='new'):
         r = fresh(name, Ref); path.pc += [Not(self.alloc[r]), r != NULL]
-        self.alloc = z3.Store(self.alloc, r, True); path.fresh.append(r); REC.add('$alloc'); return r
+        self.alloc = z3.Store(self.alloc, r, True); path.fresh.append(r); ALLOC_LOG.append(r); REC.add('$alloc'); return r
     # list helpers
     def llen(self, r): return self.load(r, '$len')
     def items(self, r, ek): return self.load(r, items_field(ek))
@@ -271,6 +272,9 @@ class Engine:
                 if e.attr not in self.fields: raise Unsupported(f'field {e.attr} has no declared kind')
                 kind = self.fields[e.attr]
                 if hasattr(self.spec, 'field_kind'): kind = self.spec.field_kind(e, kind) or kind      # same attribute name on two classes (e.g. `outputs`)
+                if hasattr(self.spec, 'field_alias'):                                                   # same attribute name with two SORTS (`param.producer` is a record, `tensor_info.producer` an int): a separate heap field, read-only
+                    al = self.spec.field_alias(e)
+                    if al: return V(self.fields[al], p.heap.load(b.term, al))
                 return V(kind, p.heap.load(b.term, e.attr))
             if b.kind == 'tuple': return b.kw['fields'][e.attr]
             raise Unsupported(f'attribute {e.attr} of {b.kind}@{e.lineno}')
@@ -502,6 +506,11 @@ class Engine:
                 if f.attr == 'append': self.lappend(recv, self.ev(args[0], p), p, line); return NONE
                 if f.attr == 'insert': self.linsert(recv, self.ev(args[0], p).term, self.ev(args[1], p), p, line); return NONE
                 if f.attr == 'remove': self.lremove(recv, self.ev(args[0], p).term, p, line); return NONE
+                if f.attr == 'pop' and not args:          # list.pop(): last element; IndexError on an empty list (obligation)
+                    n = self.llen(recv, p); it = self.litems(recv, p)
+                    self.emit(p, f'no-IndexError-pop-from-empty@{line}', n > 0, line); p.pc.append(n > 0)
+                    self.frame(p, recv.term, '$len', line); p.heap.store(recv.term, '$len', n - 1)
+                    return self.mk(elem_kind(recv.kind), it[n - 1])
                 if f.attr == 'tolist':           # fresh python list with the same items
                     ek = elem_kind(recv.kind); r = p.heap.new(p, 'lst')
                     p.heap.store(r, items_field(ek), self.litems(recv, p)); p.heap.store(r, '$len', self.llen(recv, p)); return V(recv.kind, r)
@@ -666,13 +675,13 @@ class Engine:
         global REC, REC_LOC
         saved_rec, saved_loc = set(REC), {k_: list(v_) for k_, v_ in REC_LOC.items()}; REC.clear(); REC_LOC.clear(); self.mute += 1
         try:
-            d = p.fork(); n0 = len(d.fresh); paths = [d]
+            d = p.fork(); n0 = len(d.fresh); n_log0 = len(ALLOC_LOG); paths = [d]
             for o_ in self.block(s.body, d): paths.append(o_.path)
         finally: self.mute -= 1
         wf = set(REC); locs = {k_: list(v_) for k_, v_ in REC_LOC.items()}
         REC.clear(); REC.update(saved_rec | wf); REC_LOC.clear(); REC_LOC.update(saved_loc)
         for k_, v_ in locs.items(): REC_LOC.setdefault(k_, []).extend(v_)
-        wf.discard('$alloc'); dry_fresh = {r.get_id() for q_ in paths for r in q_.fresh[n0:]}
+        wf.discard('$alloc'); dry_fresh = {r.get_id() for q_ in paths for r in q_.fresh[n0:]} | {r.get_id() for r in ALLOC_LOG[n_log0:]}
         def havoc(q, tag):
             for f in wf:
                 rs = [r for r in locs.get(f, [None]) if r is None or r.get_id() not in dry_fresh]
@@ -750,7 +759,7 @@ class Engine:
         saved_rec, saved_loc = set(REC), {k_: list(v_) for k_, v_ in REC_LOC.items()}; REC.clear(); REC_LOC.clear(); self.mute += 1
         dry_syms = set()
         try:
-            d = p.fork(); di = fresh(f'dry{k}', I); dry_syms.add(di.get_id()); d.pc += [0 <= di, di < n]; n_fresh0 = len(d.fresh); dry_paths = [d]
+            d = p.fork(); di = fresh(f'dry{k}', I); dry_syms.add(di.get_id()); d.pc += [0 <= di, di < n]; n_fresh0 = len(d.fresh); n_log0 = len(ALLOC_LOG); dry_paths = [d]
             for nme in wn:                      # locals assigned in the body hold arbitrary values in an arbitrary iteration
                 if nme in d.env and (d.env[nme].kind in ('int', 'bool', 'str', 'ref') or d.env[nme].kind.startswith('list[')):
                     c = fresh(f'dry_{nme}', sort_of(d.env[nme].kind)); dry_syms.add(c.get_id()); d.env[nme] = V(d.env[nme].kind, c)
@@ -785,7 +794,7 @@ class Engine:
             return ok(r)
         # objects allocated by the body itself are new in every iteration: stores to them cannot change any object that exists at the loop
         # head, so they need no havoc at all (and the dry run's names for them mean nothing on the real path)
-        dry_fresh = {r.get_id() for q_ in dry_paths for r in q_.fresh[n_fresh0:]}
+        dry_fresh = {r.get_id() for q_ in dry_paths for r in q_.fresh[n_fresh0:]} | {r.get_id() for r in ALLOC_LOG[n_log0:]}      # incl. objects allocated on paths that end inside a nested loop (its preserve branch)
         precise = {}
         for f in list(wf):
             rs0 = locs.get(f, [None])
